@@ -90,6 +90,9 @@ func (t *RTPTransceiver) getCodecs() []RTPCodecParameters {
 				continue
 			}
 			usedPayloadTypes[codec.PayloadType] = true
+			// a preference may leave the clock rate or the channels unset (matched as the codec's default):
+			// describe the codec the way the matched codec is described, never as e.g. "opus/0"
+			codec.ClockRate, codec.Channels = c.ClockRate, c.Channels
 			codec.RTCPFeedback = rtcpFeedbackIntersection(codec.RTCPFeedback, c.RTCPFeedback)
 			filteredCodecs = append(filteredCodecs, codec)
 		}
